@@ -455,6 +455,12 @@ def run(ctx):
                       theorem="C20 correspondence (Corr/C20c.v chk_range/chk_pool)")
     ctx.cov["disagreements"] = len(bad_corr)
     ctx.cov["monitor_failures"] = len(bad_mon)
+    # "anything else is rejected with an error and changes nothing" where configurations are actually loaded: the scheduler
+    # plugin's reload path (configmap -> ensureIPAMConf -> decode -> ConfigurePool) with a configuration in force and pods
+    # holding IPs; real FloatingIPPlugin vs Model/Plugin.v + monitors
+    import plugincheck
+    plugincheck.run(ctx, "C20", [], [], plugincheck.mon_c20_plugin, nrandom=(0, 0), incarnations=False, fixed=False,
+                    extra_scenarios=plugincheck.rejected_reload_scenarios(ctx.rng, ctx) + plugincheck.reload_scenarios(ctx.rng, ctx))
 
 
 def describe_monitor_failure(o):
